@@ -18,6 +18,8 @@ pub struct DiskState {
     pub multi_block_calls: u64,
     /// number of injected faults that actually fired
     pub fault_hits: u64,
+    /// how many of them were WRITE calls
+    pub write_fault_hits: u64,
 }
 
 impl DiskState {
@@ -47,6 +49,9 @@ impl RamDisk {
     }
     pub fn fault_hits(&self) -> u64 {
         self.0.borrow().fault_hits
+    }
+    pub fn write_fault_hits(&self) -> u64 {
+        self.0.borrow().write_fault_hits
     }
     pub fn clear_faults(&self) {
         self.0.borrow_mut().faults.clear();
@@ -87,6 +92,7 @@ impl BlockDevice for RamDisk {
         s.calls += 1;
         if s.faults.contains(&call) {
             s.fault_hits += 1;
+            s.write_fault_hits += 1;
             return Err(DevFault);
         }
         for (k, b) in blocks.iter().enumerate() {
